@@ -49,3 +49,25 @@ def isDepthRLEB (l : List (Iv α)) (runs : List (Iv Nat)) : Bool :=
     | _ => false)
 
 end BV
+
+namespace BV
+variable {α : Type}
+
+/-- maximal runs of consecutive `true` of `f` over `0 .. n-1`, as `(start, stop)` pairs:
+the canonical (minimal, disjoint, non-adjacent, ascending) cover of `{p < n | f p}` -/
+def runsOf (f : Nat → Bool) (n : Nat) : List (Nat × Nat) :=
+  let step (acc : List (Nat × Nat) × Option Nat) (p : Nat) : List (Nat × Nat) × Option Nat :=
+    match acc.2, f p with
+    | none, true => (acc.1, some p)
+    | none, false => acc
+    | some s, true => (acc.1, some s)
+    | some s, false => (acc.1 ++ [(s, p)], none)
+  let r := (List.range n).foldl step ([], none)
+  match r.2 with
+  | none => r.1
+  | some s => r.1 ++ [(s, n)]
+
+/-- the canonical cover of the positions covered by `l` -/
+def canonicalCover (l : List (Iv α)) : List (Nat × Nat) := runsOf (coveredB l) (maxStop l + 1)
+
+end BV
